@@ -26,6 +26,7 @@ structure St where
   started : Bool := false
   hist : List (Nat × Node) := []      -- the node after each height (for `reorg`: consensus replaces an executed block)
   minJ : Nat := 1                     -- `minJnlHeight` of the state ledger: the lowest height a rollback may name (journals are pruned below head-10)
+  log : List (Tx × Bool) := []        -- every transaction of this history, in order (tx token `again <k>`: the k-th once more)
 
 def initNode : Node :=
   let store : KV Key Val := worldServices.foldl (fun m p =>
@@ -197,7 +198,9 @@ def doBlock (s : St) (rest : List String) : St × String :=
       else if k == "sig:nofrom" then (parseTx inner).map (fun x => (noSender x, false))
       else if k.startsWith "sig:" then (parseTx inner).map (fun x => (x, k == "sig:ok")) else (parseTx t).map (fun x => (x, true))
     | [] => none
-  let txs := (splitTxs rest).map parseSigned
+  let txs := (splitTxs rest).map (fun t => match t with
+    | ["again", k] => (k.toNat?).bind (fun i => s.log[i]?)
+    | _ => parseSigned t)
   if txs.all Option.isSome then
     let (n', out) := execBlock s.cfg s.node (txs.filterMap id)
     let outside := (txs.filterMap id).map fun p => match p.1 with
@@ -227,7 +230,8 @@ def doBlock (s : St) (rest : List String) : St × String :=
             decide (c ≤ 1) && (c == 0 || d == r.height)
           | _ => true
       | _ => true
-    ({ s with node := n', hist := s.hist ++ [(n'.height, n')], minJ := if n'.height > 10 then max s.minJ (n'.height - 10) else s.minJ },
+    ({ s with node := n', hist := s.hist ++ [(n'.height, n')], minJ := if n'.height > 10 then max s.minJ (n'.height - 10) else s.minJ,
+              log := s.log ++ txs.filterMap id },
       showBlock out outside ++ " ##m listedfinal=" ++ (if listedFinal then "1" else "0") ++
         " abort=" ++ (if aborted then "1" else "0") ++ " openinv=" ++ (if openInv then "1" else "0") ++
         -- the hypothesis of the router theorems (`C02_router_hands_each_pier_its_delivery_set` …): one entry per chain
